@@ -7,7 +7,7 @@
        the M-step writes is copied back - decided on the lists GENERATED from /repo/src. *)
 From Coq Require Import List Arith Lia Bool.
 From Coq Require String.
-From BLE Require Import Generated.Facts.
+From BLE Require Import Generated.Facts Proofs.FactsDefs.
 Import ListNotations.
 
 Section Sched.
@@ -165,7 +165,6 @@ Definition after_shared (caller : state) (writes : list (string * Val)) : state 
 Definition after_isolated (caller : state) (writes : list (string * Val)) (copyback : list string) : state :=
   let worker := apply_writes caller writes in
   fold_left (fun st a => sset st a (worker a)) copyback caller.
-Definition incl_b (a b : list string) : bool := forallb (fun x => existsb (String.eqb x) b) a.
 
 Lemma apply_writes_other s ws a : ~ In a (map fst ws) -> apply_writes s ws a = s a.
 Proof.
@@ -199,10 +198,6 @@ Proof.
 Qed.
 End CopyBack.
 
-(* the obligations over the lists generated from /repo/src on this run *)
-Definition gmm_ml_copyback_ok : bool := incl_b ml_mstep_writes gmm_copyback.
-Definition gmm_map_copyback_ok : bool := incl_b map_mstep_writes gmm_copyback.
-Definition ivector_copyback_ok : bool := incl_b ivector_mstep_writes ivector_copyback.
 Theorem generated_copyback_obligations :
   extraction_error = false /\ gmm_ml_copyback_ok = true /\ gmm_map_copyback_ok = true /\ ivector_copyback_ok = true
   /\ ml_mstep_writes <> [] /\ map_mstep_writes <> [] /\ ivector_mstep_writes <> [].
